@@ -73,15 +73,94 @@ def configs(tier, seed):
     out.append({"kind": "csr_bridge", "cfg": {"aw": 5, "dw": 32, "g": 8, "regs": [["x", [["c", "p"], ["i", 3]], 40, None], ["y", [], 1, 8]]}})
     out.append({"kind": "csr_bridge", "cfg": {"aw": 4, "dw": 16, "g": 8, "regs": [["only", [], 16, None]]}})
     out.append({"kind": "csr_bridge", "cfg": {"aw": 4, "dw": 8, "g": 8, "regs": []}})
+    # parameters OUTSIDE the documented domains: the constructor may turn them down in whatever way it likes (then nothing was
+    # "built from accepted parameters"), but a component it does hand out must elaborate or be refused explicitly
+    for what, kw in ODD_PARAMS:
+        out.append({"kind": "odd_params", "cfg": {"what": what, "kw": kw}})
     # registers whose nested field names collide after flattening with '__'
     out.append({"kind": "register_real", "cfg": {"fields": "nested_collision"}})
     out.append({"kind": "register_real", "cfg": {"fields": "mixed"}})
     return out
 
 
+ODD_PARAMS = [
+    ("mux", {"shadow_overlaps": -1}), ("mux", {"shadow_overlaps": -7}), ("mux", {"shadow_overlaps": True}), ("mux", {"shadow_overlaps": 1.0}),
+    ("mux", {"shadow_overlaps": "1"}), ("mux", {"shadow_overlaps": 10 ** 6}),
+    ("csr_decoder", {"addr_width": 1, "data_width": 8, "alignment": 40}), ("csr_decoder", {"addr_width": 70, "data_width": 8}),
+    ("csr_decoder", {"addr_width": True, "data_width": 8}), ("csr_decoder", {"addr_width": 4, "data_width": 1}),
+    ("wb_decoder", {"addr_width": 0, "data_width": 64, "granularity": 8}), ("wb_decoder", {"addr_width": 1, "data_width": 8, "alignment": 9}),
+    ("wb_decoder", {"addr_width": 3, "data_width": 8, "features": ()}), ("wb_decoder", {"addr_width": 3, "data_width": 8, "features": "err"}),
+    ("arbiter", {"addr_width": 0, "data_width": 64, "granularity": 64}), ("arbiter", {"addr_width": 40, "data_width": 8}),
+    ("sram", {"size": 1, "data_width": 8}), ("sram", {"size": 2, "data_width": 64, "granularity": 32}), ("sram", {"size": 4, "data_width": 8, "init": (1, 2, 3, 4, 5)}),
+    ("sram", {"size": 4, "data_width": 8, "init": [256]}), ("sram", {"size": True, "data_width": 8}), ("sram", {"size": 8, "data_width": 8, "writable": 0}),
+    ("evmon", {"n": 0, "data_width": 1}), ("evmon", {"n": 3, "data_width": 8, "alignment": 9}), ("evmon", {"n": 3, "data_width": 8, "alignment": 10}), ("evmon", {"n": 2, "data_width": True}),
+    ("evmon", {"n": 2, "data_width": 8, "trigger": "rise"}),
+    ("gpio", {"pin_count": 1, "addr_width": 2, "data_width": 8}), ("gpio", {"pin_count": 64, "addr_width": 8, "data_width": 8, "input_stages": 0}),
+    ("gpio", {"pin_count": 3, "addr_width": 4, "data_width": 8, "input_stages": True}), ("gpio", {"pin_count": True, "addr_width": 4, "data_width": 8}),
+    ("bridge", {"data_width": 64, "csr_aw": 1, "csr_dw": 8}), ("bridge", {"data_width": 24, "csr_aw": 4, "csr_dw": 8}), ("bridge", {"data_width": 8, "csr_aw": 4, "csr_dw": 16}),
+    ("action_rw", {"shape": 0}), ("action_rw", {"shape": 4, "init": 255}), ("action_rw", {"shape": 3, "init": -1}), ("action_rw1c", {"shape": 1, "init": True}),
+    ("register", {"access": "rw", "width": 0}), ("register", {"access": "r", "field": "W"}),
+]
+
+
+def build_odd(cfg):
+    """construction failing in ANY way = the parameters were not accepted (-> Refused); otherwise the component is returned"""
+    from amaranth_soc import csr, event, gpio, wishbone
+    from amaranth_soc.csr import action
+    from amaranth_soc.memory import MemoryMap
+    from amaranth.lib import wiring
+    from amaranth.lib.wiring import Out
+    what, kw = cfg["what"], dict(cfg["kw"])
+    try:
+        if what == "mux":
+            class MockReg(wiring.Component):
+                def __init__(self, width, access):
+                    super().__init__({"element": Out(csr.Element.Signature(width, access))})
+            mm = MemoryMap(addr_width=4, data_width=8)
+            mm.add_resource(MockReg(8, "rw"), name="a", size=1)
+            mm.add_resource(MockReg(16, "rw"), name="b", size=2)
+            c = csr.Multiplexer(mm, **kw); return c, c.bus.memory_map
+        if what == "csr_decoder":
+            c = csr.Decoder(**kw); return c, c.bus.memory_map
+        if what == "wb_decoder":
+            c = wishbone.Decoder(**kw); return c, c.bus.memory_map
+        if what == "arbiter":
+            c = wishbone.Arbiter(**kw)
+            c.add(wishbone.Interface(**kw, path=("i",)))
+            return c, None
+        if what == "sram":
+            from amaranth_soc.wishbone.sram import WishboneSRAM
+            c = WishboneSRAM(**kw); return c, c.wb_bus.memory_map
+        if what == "evmon":
+            n = kw.pop("n")
+            emap = event.EventMap()
+            for i in range(n):
+                emap.add(event.Source(path=(f"e{i}",)))
+            c = csr.event.EventMonitor(emap, **kw); return c, c.bus.memory_map
+        if what == "gpio":
+            c = gpio.Peripheral(**kw); return c, c.bus.memory_map
+        if what == "bridge":
+            from amaranth_soc.csr.wishbone import WishboneCSRBridge
+            bus = csr.Interface(addr_width=kw["csr_aw"], data_width=kw["csr_dw"], path=("csr",))
+            bus.memory_map = MemoryMap(addr_width=kw["csr_aw"], data_width=kw["csr_dw"])
+            c = WishboneCSRBridge(bus, data_width=kw["data_width"]); return c, c.wb_bus.memory_map
+        if what in ("action_rw", "action_rw1c"):
+            cls = action.RW if what == "action_rw" else action.RW1C
+            sh = kw.pop("shape")
+            return cls(sh, **kw), None
+        if what == "register":
+            fcls = getattr(action, kw.get("field", "RW"))
+            return csr.Register(csr.Field(fcls, kw.get("width", 4)), access=kw["access"]), None
+    except Exception as e:
+        raise Refused(f"not accepted by the constructor: {type(e).__name__}: {e}")
+    raise KeyError(what)
+
+
 def build(kind, cfg):
     """Returns (component, memory_map or None)."""
     from amaranth_soc import csr, event, gpio, wishbone
+    if kind == "odd_params":
+        return build_odd(cfg)
     if kind == "mux":
         from . import mux
         try:
@@ -181,7 +260,7 @@ def check_config(ctx, c):
         raise _Timeout()
     old = signal.signal(signal.SIGALRM, on_alarm)
     old_limit = sys.getrecursionlimit()
-    sys.setrecursionlimit(3000)
+    sys.setrecursionlimit(1000)       # the interpreter default: what a user of the library gets
     signal.alarm(60)
     try:
         try:
@@ -203,6 +282,7 @@ def check_config(ctx, c):
         before = snapshot(mm)
         texts = []
         for k in range(3):
+            signal.alarm(180)        # the guard is per elaboration: large (legitimately slow) designs are not "non-terminating"
             try:
                 # ports as an undirected list: directions follow driven-ness (what amaranth.sim / a parent module
                 # sees); whether the declared signature directions fit the role is C20's question, not C19's
@@ -212,7 +292,7 @@ def check_config(ctx, c):
                         ports.append(sig.as_value() if hasattr(sig, "as_value") else sig)
                 texts.append(rtlil.convert(comp, ports=ports))
             except _Timeout:
-                result("terminates", False, f"elaboration #{k + 1} did not terminate within 60 s", f"terminates:{kind}:elaborate")
+                result("terminates", False, f"elaboration #{k + 1} did not terminate within 180 s", f"terminates:{kind}:elaborate")
                 return
             except RecursionError as e:
                 result("terminates", False, f"elaboration #{k + 1}: RecursionError at {where(e)}", f"terminates:{kind}:{where(e)}")
